@@ -1,4 +1,207 @@
 import Reduino.Fw.Actuators
+import Reduino.Host.Led
+import Reduino.Host.RGBLed
+import Reduino.Host.Servo
+import Reduino.Host.DCMotor
+import Reduino.Lemmas.Field
+import Reduino.Lemmas.C04
+/-
+  C04 — Actuator commands: firmware drives pins exactly as the host simulation predicts.
+
+  `Fw.*` are the emitted C++ blocks, `Host.*` the host classes (tied to the real code by S_c and H).  Float carrier:
+  an arbitrary ordered field `K` with floor (exact arithmetic).  Part A: clamping for ARBITRARY arguments and states.
+  Part B: for every call the host accepts (in-range arguments), the firmware's shadow state equals the host state
+  (so every getter agrees), the last level written to the pins is the image of the host state, and delays agree up
+  to the device's whole-millisecond rounding.  By induction the same holds after every call sequence.
+-/
 namespace Reduino.Props.C04
-theorem stub : True := trivial
+open Reduino Reduino.Fw
+
+variable {K : Type} [Field K] [LinearOrder K] [IsStrictOrderedRing K] [FloorRing K]
+
+def dutiesOf (l : List Ev) : List Int := l.filterMap fun | .aWrite _ d => some d | _ => none
+def delaysOf (l : List Ev) : List Int := l.filterMap fun | .delay ms => some ms | _ => none
+
+/-! ## Part A — out-of-range commands never reach a pin unclamped -/
+
+def FLedInv (l : FLed) : Prop := 0 ≤ l.brightness ∧ l.brightness ≤ 255 ∧ (l.state = true ↔ 0 < l.brightness)
+
+theorem led_clamped (l : FLed) (op : FLedOp K) :
+    (∀ d ∈ dutiesOf (FLed.step l op).evs, 0 ≤ d ∧ d ≤ 255) ∧ (FLedInv l → FLedInv (FLed.step l op).st) := by
+  sorry
+
+def FRgbInv (s : FRgb) : Prop :=
+  (0 ≤ s.color.1 ∧ s.color.1 ≤ 255) ∧ (0 ≤ s.color.2.1 ∧ s.color.2.1 ≤ 255) ∧ (0 ≤ s.color.2.2 ∧ s.color.2.2 ≤ 255)
+
+theorem rgb_clamped (s : FRgb) (op : FRgbOp K) (h : FRgbInv s) :
+    (∀ d ∈ dutiesOf (FRgb.step s op).evs, 0 ≤ d ∧ d ≤ 255) ∧ FRgbInv (FRgb.step s op).st := by
+  sorry
+
+/-- servo commands are clamped to the configured angle / pulse bounds, whatever is asked -/
+theorem servo_clamped (s : FServo K) (op : FServoOp K) (ha : s.minA < s.maxA) (hp : s.minP < s.maxP) :
+    let s' := (FServo.step s op).st
+    s.minA ≤ s'.angle ∧ s'.angle ≤ s.maxA ∧ s.minP ≤ s'.pulse ∧ s'.pulse ≤ s.maxP ∧
+    s'.minA = s.minA ∧ s'.maxA = s.maxA ∧ s'.minP = s.minP ∧ s'.maxP = s.maxP := by
+  sorry
+
+def FMotorInv (m : FMotor K) : Prop := (-1 : K) ≤ m.speed ∧ m.speed ≤ 1
+
+theorem motor_clamped (m : FMotor K) (op : FMotorOp K) (h : FMotorInv m) :
+    (∀ d ∈ dutiesOf (FMotor.step m op).evs, 0 ≤ d ∧ d ≤ 255) ∧ FMotorInv (FMotor.step m op).st := by
+  sorry
+
+/-! ## Part B — agreement with the host on every accepted call -/
+
+/-! ### Led -/
+def ledOp : Host.LedOp K → FLedOp K
+  | .on => .on | .off => .off | .toggle => .toggle
+  | .setBrightness v => .setBrightness v
+  | .blink d t => .blink d t
+  | .fadeIn s d => .fadeIn s d
+  | .fadeOut s d => .fadeOut s d
+  | .flashPattern p d => .flashPattern (p.map Val.toInt) d
+
+def RelLed (f : FLed) (h : Host.Led) : Prop := f.brightness = h.brightness ∧ f.state = h.state
+
+/-- whole-millisecond rounding of a host sleep argument (`delay(unsigned long)`) -/
+def msOf (v : Val K) : Int := match toULong v with | some n => n | none => 0
+
+/-- (pattern entries are integers, as the documented `Sequence[int]`; a float entry such as 1.5 is truncated to 1 by
+    the host but reaches the firmware as the literal 1 = "on") -/
+theorem led_agrees (f : FLed) (h : Host.Led) (op : Host.LedOp K) (hrel : RelLed f h) (hinv : (Host.Led.step h op).res = .ok)
+    (hh : 0 ≤ h.brightness ∧ h.brightness ≤ 255 ∧ (h.state = true ↔ 0 < h.brightness))
+    (hpat : ∀ p d, op = .flashPattern p d → ∀ e ∈ p, ∃ n : Int, e = Val.int n) :
+    RelLed (FLed.step f (ledOp op)).st (Host.Led.step h op).st ∧
+    (FLed.step f (ledOp op)).defined = true ∧
+    delaysOf (FLed.step f (ledOp op)).evs = (Host.Led.step h op).sleeps.map msOf := by
+  sorry
+
+/-- the level last written to the LED pin is the host's brightness (HIGH = 255, LOW = 0) -/
+def ledLevel : Ev → Option Int
+  | .dWrite _ l => some (if l = 0 then 0 else 255)
+  | .aWrite _ d => some d
+  | _ => none
+
+theorem led_final_level (f : FLed) (h : Host.Led) (op : Host.LedOp K) (hrel : RelLed f h)
+    (hinv : (Host.Led.step h op).res = .ok)
+    (hh : 0 ≤ h.brightness ∧ h.brightness ≤ 255 ∧ (h.state = true ↔ 0 < h.brightness))
+    (hne : ∀ p d, op ≠ .flashPattern p d ∨ p ≠ [])
+    (hpat : ∀ p d, op = .flashPattern p d → ∀ e ∈ p, ∃ n : Int, e = Val.int n) :
+    ((FLed.step f (ledOp op)).evs.filterMap ledLevel).getLast? = some (Host.Led.step h op).st.brightness := by
+  sorry
+
+/-! ### RGBLed -/
+def rgbOp : Host.RGBOp K → FRgbOp K
+  | .setColor r g b => .setColor r g b
+  | .on r g b => .setColor r g b
+  | .off => .off
+  | .fade r g b d n => .fade r g b d n
+  | .blink r g b t d => .blink r g b t d
+
+def RelRgb (f : FRgb) (h : Host.RGB) : Prop := f.color = h.color ∧ f.state = h.state
+
+/-- fade is excluded here (its end point is covered by `rgb_fade_end`, its interior by the half-rounding caveat) -/
+theorem rgb_agrees (f : FRgb) (h : Host.RGB) (op : Host.RGBOp K) (hrel : RelRgb f h)
+    (hok : (Host.RGB.step h op).res = .ok) (hnf : ∀ r g b d n, op ≠ .fade r g b d n)
+    (hh : h.state = true ↔ (h.color.1 > 0 ∨ h.color.2.1 > 0 ∨ h.color.2.2 > 0)) :
+    RelRgb (FRgb.step f (rgbOp op)).st (Host.RGB.step h op).st := by
+  sorry
+
+/-- a fade the host accepts ends exactly on the target on both sides, with the same on/off state -/
+theorem rgb_fade_end (f : FRgb) (h : Host.RGB) (r g b d n : Val K) (hrel : RelRgb f h)
+    (hok : (Host.RGB.step h (.fade r g b d n)).res = .ok) :
+    RelRgb (FRgb.step f (.fade r g b d n)).st (Host.RGB.step h (.fade r g b d n)).st := by
+  sorry
+
+/-- every interior step differs from the host's by at most one PWM count per channel, and is equal unless the
+    interpolated value lies exactly on a half (the host rounds half-to-even, the firmware half away from zero) -/
+theorem rgb_fade_step_close (cur goal i n : Int) (hn : 0 < n) (hi : 0 ≤ i ∧ i ≤ n) :
+    let fw := FRgb.fadeChan cur goal i n
+    let host := Host.RGB.interp (α := K) cur goal i n
+    (fw - host).natAbs ≤ 1 ∧ ((2 * ((goal - cur) * i)) % (2 * n) ≠ n → fw = host) := by
+  sorry
+
+/-- the full statement (equal at every step) fails on a tie: known finding K04a -/
+theorem rgb_fade_tie_counterexample :
+    FRgb.fadeChan 0 1 1 2 = 1 ∧ Host.RGB.interp (α := K) 0 1 1 2 = 0 := by
+  sorry
+
+/-! ### Servo -/
+def servoOp : Host.ServoOp K → FServoOp K
+  | .write a => .write a
+  | .writeUs p => .writeUs p
+
+def RelServo (f : FServo K) (h : Host.Servo K) : Prop :=
+  f.minA = h.minA ∧ f.maxA = h.maxA ∧ f.minP = h.minP ∧ f.maxP = h.maxP ∧ f.angle = h.angle ∧ f.pulse = h.pulse
+
+theorem servo_agrees (f : FServo K) (h : Host.Servo K) (op : Host.ServoOp K) (hrel : RelServo f h)
+    (ha : h.minA < h.maxA) (hp : h.minP < h.maxP) (hok : (Host.Servo.step h op).2 = .ok) :
+    RelServo (FServo.step f (servoOp op)).st (Host.Servo.step h op).1 ∧
+    (FServo.step f (servoOp op)).evs =
+      (match op with
+       | .write _ => [.servoWrite (Num.trunc ((Host.Servo.step h op).1.angle + 1 / 2))]
+       | .writeUs _ => [.servoUs (Num.trunc ((Host.Servo.step h op).1.pulse + 1 / 2))]) := by
+  sorry
+
+/-! ### DCMotor -/
+def motorOp : Host.MotorOp K → FMotorOp K
+  | .setSpeed v => .setSpeed v
+  | .backward v => .backward v
+  | .stop => .stop | .coast => .coast | .invert => .invert
+  | .ramp t d => .ramp t d
+  | .runFor d v => .runFor d v
+
+def modeImage : Host.Mode → FMode
+  | .coast => .coast | .drive => .drive | .brake => .brake
+
+/-- the duty the firmware puts on the enable pin for an applied speed -/
+def dutyOf (applied : K) : Int := clamp255 (Num.trunc (|applied| * 255 + 1 / 2))
+
+/-- speeds so small that the PWM rounds to 0 are `drive` on the host and `coast` in firmware (finding K04b) -/
+def NotTiny (x : K) : Prop := x = 0 ∨ 1 / 510 ≤ |x|
+
+def RelMotor (f : FMotor K) (h : Host.Motor K) : Prop :=
+  f.speed = h.speed ∧ f.inverted = h.inverted ∧ f.mode = modeImage h.mode
+
+/-- single-command operations: state (hence every getter) agrees, provided no applied speed is tiny -/
+theorem motor_agrees (f : FMotor K) (h : Host.Motor K) (op : Host.MotorOp K) (hrel : RelMotor f h)
+    (hinv : (-1 : K) ≤ h.speed ∧ h.speed ≤ 1 ∧ h.applied = (if h.inverted then -h.speed else h.speed))
+    (hok : (Host.Motor.step h op).res = .ok)
+    (hnt : ∀ x ∈ (Host.Motor.step h op).trace, NotTiny x) (hnt0 : NotTiny h.speed) :
+    RelMotor (FMotor.step f (motorOp op)).st (Host.Motor.step h op).st := by
+  sorry
+
+/-- applied speed query: `(inverted ? -speed : speed)` is the host's applied speed -/
+theorem motor_applied_getter (f : FMotor K) (h : Host.Motor K) (hrel : RelMotor f h)
+    (hinv : h.applied = (if h.inverted then -h.speed else h.speed)) :
+    (if f.inverted then -f.speed else f.speed) = h.applied := by
+  sorry
+
+/-- `set_speed`: direction pins and duty are the image of the host's applied speed -/
+theorem motor_set_speed_pins (f : FMotor K) (h : Host.Motor K) (v : Val K) (hrel : RelMotor f h)
+    (hnt : NotTiny (Host.Motor.step h (.setSpeed v)).st.applied) :
+    let a := (Host.Motor.step h (.setSpeed v)).st.applied
+    (FMotor.step f (.setSpeed v)).evs =
+      (if a = 0 then [.dWrite f.pins.1 0, .dWrite f.pins.2.1 0]
+       else if 0 < a then [.dWrite f.pins.1 1, .dWrite f.pins.2.1 0]
+       else [.dWrite f.pins.1 0, .dWrite f.pins.2.1 1]) ++ [.aWrite f.pins.2.2 (dutyOf a)] := by
+  sorry
+
+/-- delays: run_for waits ⌊duration⌋ ms, ramp 20 × ⌊duration/20⌋ ms (host: the unrounded values) -/
+theorem motor_delays (f : FMotor K) (d v : Val K) (hd : 0 ≤ d.toF) :
+    delaysOf (FMotor.step f (.runFor d v)).evs = [Num.trunc d.toF] ∧
+    (∀ t, delaysOf (FMotor.step f (.ramp t d)).evs =
+      if 0 < d.toF then List.replicate 20 (Num.trunc (d.toF / 20)) else []) := by
+  sorry
+
+/-- the tiny-speed disagreement: known finding K04b -/
+theorem motor_tiny_speed_counterexample :
+    let v : Val K := .flt (1 / 1000)
+    (Host.Motor.step (Host.Motor.init : Host.Motor K) (.setSpeed v)).st.mode = .drive ∧
+    (FMotor.step (FMotor.init (2, 3, 6) : FMotor K) (.setSpeed v)).st.mode = .coast := by
+  sorry
+
+example : (Host.Led.step ({} : Host.Led) (.blink (.int 5) (.int 2) : Host.LedOp K)).res = .ok := by
+  simp [Host.Led.step, Val.lt, Val.le]
+
 end Reduino.Props.C04
